@@ -137,3 +137,76 @@ def const_int(node):
 def need(cond, what):
     if not cond:
         raise AnalysisError(f"anchor: {what}")
+
+
+_SINGLE = {}
+
+
+def _single_defs(fn):
+    """name -> defining expression, for locals of fn assigned exactly once by a plain assignment (never a parameter, a loop
+    target or an augmented target)."""
+    key = id(fn)
+    if key not in _SINGLE:
+        params = {a.arg for a in fn.args.args + fn.args.kwonlyargs + fn.args.posonlyargs}
+        defs, bad = {}, set(params)
+        for n in ast.walk(fn):
+            if isinstance(n, ast.Assign):
+                for t in n.targets:
+                    if isinstance(t, ast.Name):
+                        defs.setdefault(t.id, []).append(n.value)
+                    else:
+                        bad |= {x.id for x in ast.walk(t) if isinstance(x, ast.Name)}
+            elif isinstance(n, ast.AnnAssign) and isinstance(n.target, ast.Name) and n.value is not None:
+                defs.setdefault(n.target.id, []).append(n.value)
+            elif isinstance(n, ast.AugAssign):
+                bad |= {x.id for x in ast.walk(n.target) if isinstance(x, ast.Name)}
+            elif isinstance(n, (ast.For, ast.comprehension)):
+                bad |= {x.id for x in ast.walk(n.target) if isinstance(x, ast.Name)}
+            elif isinstance(n, (ast.With,)):
+                for it in n.items:
+                    if it.optional_vars is not None:
+                        bad |= {x.id for x in ast.walk(it.optional_vars) if isinstance(x, ast.Name)}
+        _SINGLE[key] = {k: v[0] for k, v in defs.items() if len(v) == 1 and k not in bad}
+    return _SINGLE[key]
+
+
+class _Inline(ast.NodeTransformer):
+    def __init__(self, fn, depth):
+        self.fn, self.depth = fn, depth
+
+    def visit_Name(self, node):
+        if isinstance(node.ctx, ast.Load) and self.depth < 5:
+            d = _single_defs(self.fn).get(node.id)
+            if d is not None:
+                import copy
+                return _Inline(self.fn, self.depth + 1).visit(copy.deepcopy(d))
+        return node
+
+
+def resolve_local(fn, node):
+    """`node` with every local that is assigned exactly once in `fn` replaced by its defining expression (so that
+    `x0 = self.initial_state; f(x0)` reads as `f(self.initial_state)`).  Used by rules that compare argument expressions."""
+    if fn is None or node is None:
+        return node
+    import copy
+    return ast.fix_missing_locations(_Inline(fn, 0).visit(copy.deepcopy(node)))
+
+
+def arg_text(fn, node):
+    return None if node is None else ast.unparse(resolve_local(fn, node))
+
+
+def const_value(mod, fn, node):
+    """Numeric literal value of an expression after resolving single-assignment locals and module-level constants; else None."""
+    node = resolve_local(fn, node)
+    if isinstance(node, ast.Constant) and isinstance(node.value, (int, float)) and not isinstance(node.value, bool):
+        return node.value
+    if isinstance(node, ast.UnaryOp) and isinstance(node.op, ast.USub):
+        v = const_value(mod, None, node.operand)
+        return None if v is None else -v
+    if isinstance(node, ast.Name) and mod is not None:
+        for st in mod.tree.body:
+            tg = st.targets[0] if isinstance(st, ast.Assign) and len(st.targets) == 1 else (st.target if isinstance(st, ast.AnnAssign) else None)
+            if isinstance(tg, ast.Name) and tg.id == node.id and getattr(st, "value", None) is not None:
+                return const_value(mod, None, st.value)
+    return None
